@@ -591,6 +591,17 @@ impl StakeKeeper {
                     match delegation {
                         Some(delegation) if delegation.amount.is_zero() => {
                             STAKES.remove(&mut staking_storage, (&delegator, &validator));
+                            // the validator must not list a staker without a stake entry
+                            if let Some(mut validator_info) =
+                                VALIDATOR_INFO.may_load(&staking_storage, &validator)?
+                            {
+                                validator_info.stakers.remove(&delegator);
+                                VALIDATOR_INFO.save(
+                                    &mut staking_storage,
+                                    &validator,
+                                    &validator_info,
+                                )?;
+                            }
                         }
                         None => STAKES.remove(&mut staking_storage, (&delegator, &validator)),
                         _ => {}
